@@ -1,6 +1,7 @@
 import networkx as nx
 import random
 import heapq
+import copy
 import numpy as np
 import EoN
 from collections import defaultdict
@@ -1773,6 +1774,8 @@ def nonMarkov_directed_percolate_network(G, xi, zeta, transmission):
     Look at the sample for estimate_nonMarkov_SIR_prob_size to infer it.
     
 '''
+    xi = copy.copy(xi) #so that reading a defaultdict does not add keys to the caller's object
+    zeta = copy.copy(zeta)
     H = nx.DiGraph()
     for u in G.nodes():
         H.add_node(u)
@@ -3683,6 +3686,7 @@ def Gillespie_complex_contagion(G, rate_function, transition_choice,
         parameters = ()
         
 
+    IC = copy.copy(IC) #so that reading a defaultdict does not add keys to the caller's object
     status = {node: IC[node] for node in G.nodes()}
 
     if return_full_data:
@@ -4084,6 +4088,7 @@ def Gillespie_simple_contagion(G, spontaneous_transition_graph,
     if sim_kwargs is None:
         sim_kwargs = {}
         
+    IC = copy.copy(IC) #so that reading a defaultdict does not add keys to the caller's object
     status = {node: IC[node] for node in G.nodes()}
 
     if return_full_data:
